@@ -52,3 +52,8 @@ open SamVerif.ErrorSet SamVerif.Layout SamVerif.MirFull SamVerif.TempCounter
 #print axioms lowering_order_perm_invariant
 #print axioms zip_order_tie_counterexample
 #print axioms zip_order_partial
+#print axioms atomic_counter_distinct
+#print axioms split_counter_lost_update
+#print axioms split_counter_partial
+#print axioms stable_sort_is_concat_by_key
+#print axioms report_is_concat_of_module_reports
